@@ -67,10 +67,12 @@ fn main() {
         "C05" => dispatch(props::c04::EditProp(props::c04::Which::C05, Default::default()), &cfg, &replay),
         "C06" => dispatch(props::c06::C06, &cfg, &replay),
         "C07" => dispatch(props::c07::C07, &cfg, &replay),
+        "C08" => dispatch(props::c08::C08(Default::default()), &cfg, &replay),
         "C09" => dispatch(props::c09::C09, &cfg, &replay),
         "C10" => dispatch(props::c10::RelProp(props::c10::RWhich::C10), &cfg, &replay),
         "C14" => dispatch(props::c14::C14, &cfg, &replay),
         "C11" => dispatch(props::c11::C11(Default::default()), &cfg, &replay),
+        "C12" => dispatch(props::c12::C12, &cfg, &replay),
         "C13" => dispatch(props::c10::RelProp(props::c10::RWhich::C13), &cfg, &replay),
         _ => {
             eprintln!("verif: unknown property {}", id);
